@@ -404,7 +404,9 @@ type monitor struct {
 
 	exhaustive map[string]int // finite sub-spaces enumerated completely -> number of cases
 	endCover   map[string]int // end report / timing / truncation position -> cases run
-	accepted   []acceptedRec
+
+	leftoverSeen map[string]int // stop method -> process runs that left at least one complete chunk behind
+	accepted     []acceptedRec
 }
 
 func (m *monitor) violate(group, key, what string, replay any) {
@@ -510,7 +512,7 @@ func (e *edited) kinds() []string {
 	switch e.class {
 	case "extend-small", "extend", "big-extend", "sequence-own+foreign", "unmodified":
 		return product(allKinds, consumeModes)
-	case "armor-after-end", "armor-whitespace", "armor-no-end", "armor-cut-end", "armor-body", "armor-payload-extended", "unmodified-armored":
+	case "armor-after-end", "armor-whitespace", "armor-no-end", "armor-cut-end", "armor-body", "armor-payload-extended", "unmodified-armored", "leftover":
 		return product([]string{"segments", "filled", "filled+eof", "bufio4096"}, three)
 	case "trunc-at-boundary":
 		return append(product(allKinds, consumeModes), e.endProduct(three)...)
